@@ -444,6 +444,9 @@ fn record<P: Property>(
     }
     // order-independent combination of (run, sub, event digest)
     acc.batch_digest ^= splitmix64(mix(mix(run, sub), out.ctx.ev));
+    if debug_runs() {
+        println!("RUN {} {} {:016x} steps={}", run, sub, out.ctx.ev, out.ctx.steps);
+    }
     if let Err(v) = out.outcome {
         let class = p.classify(sc, &v);
         let key = format!("{}|{}", v.signature(), class);
@@ -1535,4 +1538,9 @@ pub fn find_crash<P: Property>(p: &P, opts: &Opts) -> i32 {
     }
     eprintln!("pkgsim: harness error: the batch killed the process but no range of runs does so in a child process");
     2
+}
+
+fn debug_runs() -> bool {
+    static D: std::sync::OnceLock<bool> = std::sync::OnceLock::new();
+    *D.get_or_init(|| std::env::var("PKGSIM_DEBUG_RUNS").is_ok())
 }
